@@ -261,3 +261,37 @@ def case_batchnorm():
 
 
 CASES["batchnorm"] = case_batchnorm
+
+
+def case_attr_ref():
+    """A node inside a model-local function whose attribute refers to the function's attribute parameter."""
+    import onnx.parser
+    import onnxscript.optimizer
+    txt = """
+<ir_version: 9, opset_import: ["" : 18, "local" : 1]>
+agraph (float[3] x) => (float[3] y) {
+   t = local.f <alpha = 0.5> (x)
+   y = Add(x, t)
+}
+<opset_import: ["" : 18], domain: "local">
+f <alpha> (a) => (b) {
+   c = Constant <value_floats = [-1.0, -2.0, 3.0]> ()
+   l = LeakyRelu <alpha: float = @alpha> (c)
+   b = Add(a, l)
+}
+"""
+    m = onnx.parser.parse_model(txt)
+    onnx.checker.check_model(m)
+    x = np.zeros(3, dtype=np.float32)
+    before = run(m, {"x": x})[0]
+    bad = 0
+    for inline in (False, True):
+        o = onnxscript.optimizer.optimize(onnx.parser.parse_model(txt), inline=inline)
+        after = run(o, {"x": x})[0]
+        if not np.allclose(before, after):
+            print(f"optimize(inline={inline}): LeakyRelu<alpha=@alpha>(constant) inside function f called with alpha=0.5: original {before.tolist()} optimized {after.tolist()}")
+            bad += 1
+    return bad
+
+
+CASES["attr_ref"] = case_attr_ref
